@@ -1,8 +1,8 @@
 #!/verif/.venv/bin/python
 # Replay of a solver counterexample against the unmodified code (no shims).
-# property=C06 kernel=program label=nested:atom_amp
+# property=C06 kernel=program label=nested:repeatable_same_values
 import sys
 sys.path[:0] = ['/repo' + "/pulser-core", '/repo' + "/pulser-simulation", "/verif"]
 from symx.replay import replay
-sys.exit(replay(check='checks.c06', kernel='program', shape={'program': 'xy_slm_two', 'ext': [0, 3]},
-                assignment={'a0': '1/1024', 'd0': '0/1', 'a1': '1/1024', 'd1': '0/1', 'a2': '1/1024', 'd2': '0/1'}, label='nested:atom_amp'))
+sys.exit(replay(check='checks.c06', kernel='program', shape={'program': 'two_glob_ising', 'ext': [0, 3]},
+                assignment={'a0': '1/1024', 'd0': '0/1', 'a1': '1/1024', 'd1': '0/1', 'a2': '1/1024', 'd2': '0/1'}, label='nested:repeatable_same_values'))
